@@ -106,6 +106,72 @@ func runC06(c *Ctx) {
 		}
 	}
 
+	// sync.Map.Range hands its elements out in no particular order too: what the callback collects is sorted
+	// (or given to a constructor that sorts) before it is used
+	sorters := map[string]bool{"Sort": true, "Slice": true, "SliceStable": true, "Stable": true, "sort": true, "NewValidators": true, "Strings": true}
+	for _, fn := range fns {
+		k := 0
+		for _, ci := range callInstrs(fn) {
+			o := calleeObj(ci)
+			if o == nil || o.Name() != "Range" || recvName(o) != "Map" || o.Pkg() == nil || o.Pkg().Path() != "sync" {
+				continue
+			}
+			mc, ok := stripConv(callArgs(ci)[0]).(*ssa.MakeClosure)
+			if !ok {
+				continue
+			}
+			cl := mc.Fn.(*ssa.Function)
+			c.sites++
+			key := fmt.Sprintf("%s#sync.Map.Range@%d", fname(fn), k)
+			k++
+			// captured variables the callback appends to
+			var collected []ssa.Value
+			logs := false
+			for _, in := range allInstrs(cl) {
+				if st, isSt := in.(*ssa.Store); isSt {
+					if fv, isFV := st.Addr.(*ssa.FreeVar); isFV {
+						if cc, isCall := stripConv(st.Val).(*ssa.Call); isCall {
+							if bi, isB := cc.Call.Value.(*ssa.Builtin); isB && bi.Name() == "append" {
+								for i, f := range cl.FreeVars {
+									if f == fv && i < len(mc.Bindings) {
+										collected = append(collected, mc.Bindings[i])
+									}
+								}
+							}
+						}
+					}
+				}
+				if cj, isCall := in.(ssa.CallInstruction); isCall {
+					if f := calleeObj(cj); f != nil && (f.Name() == "AddLog" || f.Name() == "addLog") {
+						logs = true
+					}
+				}
+			}
+			bad := ""
+			if logs {
+				bad = "the callback emits logs in iteration order"
+			}
+			for _, a := range collected {
+				sorted := false
+				for _, cj := range callInstrs(fn) {
+					f := calleeObj(cj)
+					if f == nil || !sorters[f.Name()] || !(instrDominates(ci, cj) || ci.Block() == cj.Block()) {
+						continue
+					}
+					for _, arg := range append(callArgs(cj), callRecv(cj)) {
+						if arg != nil && derivesFrom(arg, func(v ssa.Value) bool { return v == a }) {
+							sorted = true
+						}
+					}
+				}
+				if !sorted {
+					bad = "the callback collects the elements with append and the slice is used without being sorted"
+				}
+			}
+			c.Check(key, ci.Pos(), bad == "", ifelse(bad == "", "order-free callback (keyed writes / counting / collect-then-sort)", "iteration over a sync.Map whose effect may depend on its unspecified order: "+bad+" [reached via "+pathTo(reach, fn)+"]: builder and importer (or two runs) produce different log orders and receipt roots"))
+		}
+	}
+
 	// ------------------------------------------------------------ N2
 	c.Rule("C06.N2", "PROVENANCE", "inside block execution the chain head (CurrentHeader/CurrentBlock), time.Now, math/rand and os.Getenv/os.Environ are read only to be logged: execution depends on (parent state, block) alone")
 	c.Min(3)
